@@ -51,6 +51,7 @@ int sm9verify_main(int argc, char **argv)
 	size_t len;
 	uint8_t sig[SM9_SIGNATURE_SIZE];
 	size_t siglen;
+	int vr;
 
 	argc--;
 	argv++;
@@ -124,11 +125,14 @@ bad:
 			goto end;
 		}
 	}
-	if ((ret = sm9_verify_finish(&ctx, sig, siglen, &mpk, id, strlen(id))) != 1) {
+	if ((vr = sm9_verify_finish(&ctx, sig, siglen, &mpk, id, strlen(id))) < 0) {
 		error_print();
 		goto end;
 	}
-	printf("%s %s\n", prog, ret ? "success" : "failure");
+	printf("%s %s\n", prog, vr == 1 ? "success" : "failure");
+	if (vr == 1) {
+		ret = 0;
+	}
 
 end:
 	if (infile && infp) fclose(infp);
